@@ -6,6 +6,7 @@
 -/
 import Hpfeeds.Lemmas.BrokerAuth
 import Hpfeeds.Lemmas.BrokerStep
+import Hpfeeds.Lemmas.BrokerDyn
 import Hpfeeds.Props.C14
 namespace Hpfeeds.C02
 open Hpfeeds Hpfeeds.Broker Extracted
@@ -121,6 +122,71 @@ theorem bad_header_just_disconnects (cfg : Cfg) (s : State) (c : Nat) (buf : Byt
   · rfl
   · rename_i h'; rw [hh] at h'; cases h'
 
+/-! ### the credential store may change while the broker runs
+
+"Until the connection presents an OP_AUTH whose digest equals SHA1(nonce ‖ the secret STORED for the claimed
+ident)": stores are edited while brokers run (a secret is rotated, an identity revoked, the JSON file reloaded —
+C18).  `runS` gives every event the store as it is at that moment; the run-level theorems above hold for it
+unchanged, and the decision for each OP_AUTH frame is `auth_iff`, which is stated for an ARBITRARY state and
+the table passed to THAT step — so nothing remembered from an earlier store (a cached row, an earlier
+verdict, an earlier session of the same identity) can influence it. -/
+
+theorem Dyn.first_write_is_info (cfg : Cfg) (es : List (Store × Event)) (c : Nat) (x : Conn)
+    (hx : (runS cfg es).conn c = some x) :
+    ∃ t rest, x.out = (t, .write ⟨UInt8.ofNat OP_INFO, pack8 cfg.name ++ x.nonce⟩) :: rest :=
+  recInv_runS (I := InfoFirst cfg) (fun st => infoFirst_recInv (cfg.withStore st)) es c x hx
+
+theorem Dyn.preauth_inert (cfg : Cfg) (es : List (Store × Event)) (c : Nat) (x : Conn)
+    (hx : (runS cfg es).conn c = some x) (hak : x.ak = none) :
+    x.active = [] ∧ x.granted = [] ∧ x.pubchans = [] ∧ x.subchans = [] ∧
+    (∀ ch, c ∉ (runS cfg es).subs ch) ∧ (∀ a ∈ (runS cfg es).accepted, c ∉ a.recips) := by
+  obtain ⟨a1, a2, _, a4, a5⟩ := (auth_runS cfg es c x hx).pre hak
+  have hr := reg_runS cfg es
+  have hnotsub : ∀ ch, c ∉ (runS cfg es).subs ch := by
+    intro ch hm
+    obtain ⟨y, hy, hm'⟩ := (hr.sub_iff ch c).mp hm
+    rw [hx] at hy; cases hy; rw [a1] at hm'; cases hm'
+  refine ⟨a1, a2, a4, a5, hnotsub, ?_⟩
+  intro a ha hm
+  obtain ⟨y, hy, hk⟩ := recipAuth_runS cfg es a ha c hm
+  rw [hx] at hy; cases hy; rw [hak] at hk; cases hk
+
+theorem Dyn.preauth_receives_nothing (cfg : Cfg) (es : List (Store × Event)) (c : Nat) (x : Conn)
+    (hx : (runS cfg es).conn c = some x) (hak : x.ak = none) : pubFrames x.out = [] := by
+  rw [(deliv_runS cfg es).log c x hx]
+  unfold delivered
+  rw [List.filterMap_eq_nil_iff]
+  intro a ha
+  have := (Dyn.preauth_inert cfg es c x hx hak).2.2.2.2.2 a ha
+  simp [this]
+
+theorem Dyn.accepted_from_authenticated (cfg : Cfg) (es : List (Store × Event)) (a : Accepted)
+    (ha : a ∈ (runS cfg es).accepted) : a.srcAk = some a.ident :=
+  ((deliv_runS cfg es).acc a ha).ident
+
+theorem Dyn.authenticated_by_digest (cfg : Cfg) (es : List (Store × Event)) (c : Nat) (x : Conn) (i : Bytes)
+    (hx : (runS cfg es).conn c = some x) (hak : x.ak = some i) :
+    ∃ d row, x.authed.getLast? = some (i, d, row) ∧ cfg.H (x.nonce ++ row.secret) = d ∧
+      x.pubchans = row.pubchans ∧ x.subchans = row.subchans := by
+  have k := auth_runS cfg es c x hx
+  obtain ⟨d, row, hl, hp, hs⟩ := k.post i hak
+  exact ⟨d, row, hl, k.digests (i, d, row) (List.mem_of_getLast? hl), hp, hs⟩
+
+/-- **rotation / revocation takes effect at once**: whatever happened before (any state `s`: the identity may
+    have been looked up, accepted or refused any number of times under earlier store contents), an OP_AUTH
+    that names an identity the store does not hold NOW, or whose digest is not H(nonce ‖ the secret held NOW),
+    is answered with OP_ERROR + close and changes nothing else -/
+theorem Dyn.stale_credentials_rejected (cfg : Cfg) (s : State) (c : Nat) (x : Conn) (f : Frame) (ident digest : Bytes)
+    (tbl : Bytes → Option Row)
+    (hx : s.conn c = some x) (hreg : x.registered = true)
+    (hf : read f = some (.ok (.auth ident digest)))
+    (hstale : ∀ row, tbl ident = some row → cfg.H (x.nonce ++ row.secret) ≠ digest) :
+    messageReceived (cfg.withStore (.sync tbl)) s c f = (errorClose s c, .cont) := by
+  have h := (auth_iff (cfg.withStore (.sync tbl)) s c x f ident digest tbl hx hreg rfl hf).2
+  apply h
+  rintro ⟨row, hr, hd⟩
+  exact hstale row hr hd
+
 /-! non-vacuity (kernel-evaluated, hash := id): SUBSCRIBE before AUTH → ERROR + close, no subscription;
     AUTH with the digest of another nonce → ERROR + close; the right digest → authenticated. -/
 def exRow : Row := ⟨[115], [111], [[99]], [[99]]⟩
@@ -132,5 +198,16 @@ example : ((run exCfg [.connect 1 [1,2,3,4], .data 1 [0,0,0,12,2,1,97,9,9,9,9,11
     (fun y => (y.ak, y.closing)) = some (none, true) := by decide +kernel
 example : ((run exCfg [.connect 1 [1,2,3,4], .data 1 [0,0,0,12,2,1,97,1,2,3,4,115]]).conn 1).map
     (fun y => (y.ak, y.closing, y.pubchans)) = some (some [97], false, [[99]]) := by decide +kernel
+
+/-- a store change inside a history: connection 1 authenticates with secret `s`; the secret is rotated to `t`;
+    connection 2 presenting the OLD secret over its own nonce is refused, the NEW one is accepted -/
+def exRow' : Row := ⟨[116], [111], [[99]], [[99]]⟩
+def st0 : Store := .sync (fun i => if i = [97] then some exRow else none)
+def st1 : Store := .sync (fun i => if i = [97] then some exRow' else none)
+example : (fun s : State => ((s.conn 1).map (·.ak), (s.conn 2).map (fun y => (y.ak, y.closing)), (s.conn 3).map (fun y => (y.ak, y.closing))))
+    (runS exCfg [(st0, .connect 1 [1,2,3,4]), (st0, .data 1 [0,0,0,12,2,1,97,1,2,3,4,115]),
+                 (st1, .connect 2 [5,6,7,8]), (st1, .data 2 [0,0,0,12,2,1,97,5,6,7,8,115]),
+                 (st1, .connect 3 [9,9,9,9]), (st1, .data 3 [0,0,0,12,2,1,97,9,9,9,9,116])]) =
+    (some (some [97]), some (none, true), some (some [97], false)) := by decide +kernel
 
 end Hpfeeds.C02
